@@ -118,7 +118,7 @@ def run(ctx):
     ctx.assume('oracle: exact rational integration of the piecewise-linear response on the float inputs; midpoints formed in float64 as the statement\'s midpoints',
                'tolerance 1e-9 relative + 1e-12 of sum|R| (trapezium sums in float64)', 'strictly monotone grids (duplicate frequencies outside the quantifier)')
     ctx.require_events('Filter.rebin:post', 'Filter.normalize:post', 'file:checked', 'flat-spectrum', 'filter:read-from-text', 'rebin:same-filter-again', 'reconvolved:same-name-new-response', 'normalize:filters-sharing-one-array')
-    ctx.require_regimes('filter:integer-response', 'grid:not-in-Hz', 'filter:ascending-nu', 'filter:descending-nu', 'grid:ascending-nu', 'grid:descending-nu', 'grid:coarser', 'grid:finer',
+    ctx.require_regimes('filter:response-scale-far-from-1', 'filter:integer-response', 'grid:not-in-Hz', 'filter:ascending-nu', 'filter:descending-nu', 'grid:ascending-nu', 'grid:descending-nu', 'grid:coarser', 'grid:finer',
                         'overlap:partial-lo', 'overlap:partial-hi', 'overlap:contains', 'overlap:contained', 'edges:coincide', 'pkg:v1', 'pkg:v2', 'pkg:mixed-grids', 'filter:not-normalised', 'grids:nearly-equal')
     d = ctx.newdir('c06')
     n_reb = 500 if ctx.quick else 15000
@@ -134,6 +134,12 @@ def run(ctx):
             resp[0] = resp[-1] = 0.0
         if not np.any(resp > 0):
             resp[0] = 0.7
+        scaled = None
+        if it % 6 == 4:
+            # the overall scale of a response is arbitrary (counts, percent, throughput x area, ...): very small and very large ones
+            scaled = [1e-30, 1e-25, 1e-12, 1e12, 1e25][(it // 6) % 5]
+            resp = resp * scaled
+            ctx.regime('filter:response-scale-far-from-1')
         desc = bool(rng.random() < 0.5)
         how = rng.random()
         if how < 0.3:
@@ -200,7 +206,7 @@ def run(ctx):
                     ctx.event('normalize:callers-array-modified')
             except Exception as exc:
                 ctx.raised(exc, 'normalize-raised', 'normalize raised: %r' % (exc,), {'wav': fw, 'response': resp})
-        if rng.random() < 0.5 and not int_resp:
+        if (rng.random() < 0.5 or scaled is not None) and not int_resp:
             try:
                 f.normalize()
             except Exception as exc:
